@@ -18,11 +18,13 @@ import (
 	"sort"
 	"strconv"
 	"strings"
+	"sync"
 	"syscall"
 	"time"
 )
 
 type ufsFid struct {
+	dirlock    sync.Mutex // a directory listing is rebuilt by closing and reopening file
 	path       string
 	file       *os.File
 	dirs       []os.FileInfo
@@ -269,6 +271,8 @@ func (*Ufs) FidDestroy(sfid *SrvFid) {
 	}
 
 	fid = sfid.Aux.(*ufsFid)
+	fid.dirlock.Lock()
+	defer fid.dirlock.Unlock()
 	if fid.file != nil {
 		_ = fid.file.Close()
 	}
@@ -477,6 +481,10 @@ func (*Ufs) Read(req *SrvReq) {
 	var count int
 	var e error
 	if fid.st.IsDir() {
+		// requests a client sends concurrently on one fid must not close the
+		// directory under each other's Readdir
+		fid.dirlock.Lock()
+		defer fid.dirlock.Unlock()
 		if tc.Offset == 0 {
 			var e error
 			// If we got here, it was open. Can't really seek
